@@ -82,13 +82,23 @@ class HTTPProxyConnectionPool(ConnectionPool):
 
         if connection.closed():
             _logger.debug('Connecting to proxy.')
-            yield from connection.connect()
 
-            if tunnel:
-                yield from self._establish_tunnel(connection, (host, port))
+            try:
+                yield from connection.connect()
+
+                if tunnel:
+                    yield from self._establish_tunnel(connection, (host, port))
+
+                if use_ssl:
+                    ssl_connection = yield from connection.start_tls(self._ssl_context)
+            except BaseException:
+                # The caller never gets to see this connection: give it
+                # back or it stays checked out for ever.
+                connection.close()
+                super().no_wait_release(connection)
+                raise
 
             if use_ssl:
-                ssl_connection = yield from connection.start_tls(self._ssl_context)
                 ssl_connection.proxied = True
                 ssl_connection.tunneled = True
 
